@@ -12,6 +12,6 @@ Think about where in the code the property is actually established (read the rel
 
 DELIVERABLES in __OUT__:
   1. patch.diff — `cd __WT__ && git diff > __OUT__/patch.diff` (only your change to the library).
-  2. demo.py — a small self-contained script run as `cd <checkout> && PYTHONPATH=<checkout> /venv/bin/python demo.py` that exits 0 and prints PASS on the unmodified library and exits 1 and prints FAIL (with the concrete failing input/schedule/history) on the modified one. It must test the PROPERTY as stated (e.g. a round trip, a comparison with an independently computed expectation written out in the script), not an implementation detail. Verify both behaviours yourself: run it with your change applied, then `git stash`, run it again, then `git stash pop`.
+  2. demo.py — a small self-contained script run as `cd <checkout> && PYTHONPATH=<checkout> /venv/bin/python demo.py` that exits 0 and prints PASS on the unmodified library and exits 1 and prints FAIL (with the concrete failing input/schedule/history) on the modified one. It must test the PROPERTY as stated (e.g. a round trip, a comparison with an independently computed expectation written out in the script), not an implementation detail. Verify both behaviours yourself: run it with your change applied, then take the change out with `git diff > __OUT__/patch.diff && git apply -R __OUT__/patch.diff`, run it again, then put the change back with `git apply __OUT__/patch.diff`. Do NOT use `git stash` (the stash is shared between all worktrees of the repository and other people are working in sibling worktrees).
   3. meta.json — {"property": "<id>", "summary": "<what the change does>", "needs": "<what specific input/schedule/history is needed for it to manifest>", "files": [...], "suite": "1149 passed", "demo_unmodified": "PASS", "demo_modified": "FAIL"}.
 Leave the worktree with your change applied. Finish with a short report of what you changed and why ordinary use does not expose it.
